@@ -61,6 +61,10 @@ _dm = {"url": _url, "file_sha256": st.binary(min_size=32, max_size=32), "file_le
        "media_key": st.binary(min_size=32, max_size=32)}
 
 
+# (the context of a reply: the quoted message's id and author, and the accounts mentioned in the text - a repeated field)
+_ctx = st.fixed_dictionaries({"stanza_id": ID.strategy, "participant": _jid, "mentioned_jid": st.lists(_jid, max_size=3)})
+
+
 def build_payload(field, values):
     """serialized e2e Message with `field` (a sub-message name or "conversation") filled from `values` (None = leave unset)"""
     m = Message()
@@ -75,6 +79,8 @@ def build_payload(field, values):
         if k == "context_info":
             sub.context_info.stanza_id = v["stanza_id"]
             sub.context_info.participant = v["participant"]
+            for j in v.get("mentioned_jid") or ():
+                sub.context_info.mentioned_jid.append(j)
         else:
             setattr(sub, k, v)
     return m.SerializeToString()
@@ -96,13 +102,13 @@ def _with(base, **more):
 PROTO_TEXT = Kind("PROTO_TEXT", _utext.map(lambda s: build_payload("conversation", s)), is_bytes=True)
 PROTO_EXTTEXT = _payload("PROTO_EXTTEXT", "extended_text_message", {"text": _utext},
                          {"matched_text": _utext, "canonical_url": _url, "description": _utext, "title": _utext,
-                          "jpeg_thumbnail": _bin, "context_info": st.fixed_dictionaries({"stanza_id": ID.strategy, "participant": _jid})})
+                          "jpeg_thumbnail": _bin, "context_info": _ctx})
 PROTO_URL = _payload("PROTO_URL", "extended_text_message", {"text": _utext, "matched_text": _url, "canonical_url": _url},
                      {"description": _utext, "title": _utext, "jpeg_thumbnail": _bin})
 PROTO_IMAGE = _payload("PROTO_IMAGE", "image_message",
                        _with(_dm, mimetype=st.sampled_from(["image/jpeg", "image/png"]), width=_u32, height=_u32),
                        {"caption": _utext, "jpeg_thumbnail": _bin,
-                        "context_info": st.fixed_dictionaries({"stanza_id": ID.strategy, "participant": _jid})})
+                        "context_info": _ctx})
 PROTO_AUDIO = _payload("PROTO_AUDIO", "audio_message",
                        _with(_dm, mimetype=st.sampled_from(["audio/ogg; codecs=opus", "audio/mpeg", "audio/aac"]), seconds=_u32,
                              ptt=st.booleans()),
@@ -126,7 +132,7 @@ PROTO_LOCATION = _payload("PROTO_LOCATION", "location_message",
 PROTO_CONTACT = _payload("PROTO_CONTACT", "contact_message",
                          {"display_name": _utext,
                           "vcard": _utext.map(lambda s: ("BEGIN:VCARD\nVERSION:3.0\nFN:%s\nEND:VCARD" % s).encode("utf-8"))},
-                         {"context_info": st.fixed_dictionaries({"stanza_id": ID.strategy, "participant": _jid})})
+                         {"context_info": _ctx})
 
 
 def message_shape(mtype, payload, mediatype=None):
@@ -134,7 +140,7 @@ def message_shape(mtype, payload, mediatype=None):
     MessageMetaAttributes.from_message_protocoltreenode reads).  participant is present on group messages, offline only on
     messages that were queued while the client was away."""
     return N("message", {"from": AJID, "id": ID, "t": TS, "type": CONST(mtype), "notify": TEXT,
-                         "participant": OPT(JID), "offline": OPT(WORD("0", "1"))},
+                         "participant": OPT(JID), "offline": OPT(WORD("0", "1")), "retry": OPT(COUNT0)},
              children=[N("proto", {"mediatype": mediatype} if mediatype is not None else {}, data=payload)])
 
 
